@@ -91,7 +91,8 @@ NamedContents(S) ==
     <<"fr0", Cont(S, 1, "A", 0, PUSH, <<o1>>, <<r1>>)>>,
     <<"fr_hi", Cont(S, 1, "A", 5000, PUSH, <<o1>>, <<r1>>)>>,
     <<"first_htlc", Cont(S, 0, "A", FR, PUSH, <<o1>>, << >>)>> }
-LightNames == {"bal0", "both", "four"}
+LightNames == IF Thorough THEN {"bal0", "both", "four", "dup_off", "big_cltv", "no_local", "htlc_only", "both_n3"}
+              ELSE {"bal0", "both", "four"}
 RetryNames == {"bal", "both"}
 
 ---------------------------------------------------------------------------
@@ -255,9 +256,13 @@ PosOf(K, o) == MinOf({p \in DOMAIN K : BV(K[p]) = BV(o) /\ K[p].cl = o.cl})
 AtPos(m, K, U) == [m EXCEPT !.p = IF @ = 0 THEN 0 ELSE PosOf(K, U[@]), !.p2 = IF @ = 0 THEN 0 ELSE PosOf(K, U[@])]
 AtPosW(w, K, U) == [w EXCEPT !.p = IF @ = 0 THEN 0 ELSE PosOf(K, U[@]), !.p2 = IF @ = 0 THEN 0 ELSE PosOf(K, U[@])]
 
+\* per base, evaluated once
+CanonAt == TLCEval([i \in 1..NB |-> ModelCanon(BaseSeq[i])])
+SemAt   == TLCEval([i \in 1..NB |-> StepSem(BaseSeq[i].S, BaseSeq[i].C, RangeOf(CanonAt[i].outs), SW)])
+
 CaseOf(bi, mi) ==
   LET b  == BaseSeq[bi]
-      cn == ModelCanon(b)
+      cn == CanonAt[bi]
       m  == AtPos(b.muts[mi].m, cn.outs, b.outs)
       m2 == AtPos(b.muts[mi].m2, cn.outs, b.outs)
       w  == AtPosW(b.muts[mi].w, cn.outs, b.outs)
@@ -268,11 +273,10 @@ CaseOf(bi, mi) ==
 VARIABLES bi, mi, last
 vars == <<bi, mi, last>>
 
-SemOf(b) == StepSem(b.S, b.C, RangeOf(ModelCanon(b).outs), SW)
 Init == /\ bi \in 1..NB
         /\ mi = 0
         /\ last = IF SetupTag(BaseSeq[bi].S, SW) = "ok"
-                  THEN [kind |-> "sem", tag |-> SemOf(BaseSeq[bi]).tag, refuse |-> {}, signed_ok |-> TRUE, canon_req |-> FALSE]
+                  THEN [kind |-> "sem", tag |-> SemAt[bi].tag, refuse |-> {}, signed_ok |-> TRUE, canon_req |-> FALSE]
                   ELSE [kind |-> "setup", tag |-> "refused", refuse |-> {}, signed_ok |-> TRUE, canon_req |-> FALSE]
 Next == /\ mi = 0
         /\ last.kind = "sem"
@@ -284,28 +288,25 @@ Next == /\ mi = 0
                     \* what the code signs is what was submitted, and for the canonical request it is
                     \* what the semantic entry point signs
                     signed_ok |-> r.tag = "ok" => /\ TxBV(r.signed) = TxBV(c.tx)
-                                                  /\ (c.m.k = "none" /\ c.m2.k = "none" => TxBV(r.signed) = TxBV(SemOf(c.b).signed)),
+                                                  /\ (c.m.k = "none" /\ c.m2.k = "none" => TxBV(r.signed) = TxBV(SemAt[bi].signed)),
                     canon_req |-> c.m.k = "none" /\ c.m2.k = "none" /\ c.w.k = "none"]
 Spec == Init /\ [][Next]_vars
 
 \* C04 on the model: nothing non-canonical is accepted; what is signed is the submitted = canonical
 \* transaction; the canonical request is accepted whenever the semantic one is
 C04_RawAcceptsOnlyCanonical == (last.kind = "raw" /\ last.tag = "ok") => (last.refuse = {} /\ last.signed_ok)
-C04_Equivalence == (last.kind = "raw" /\ last.canon_req /\ SemOf(BaseSeq[bi]).tag = "ok") => last.tag = "ok"
+C04_Equivalence == (last.kind = "raw" /\ last.canon_req /\ SemAt[bi].tag = "ok") => last.tag = "ok"
 C04_SemSignsCanonical ==
   last.kind = "sem" /\ last.tag = "ok" =>
-    LET b == BaseSeq[bi] IN IsCanon(SemOf(b).signed, b.S, b.C, RangeOf(ModelCanon(b).outs))
+    LET b == BaseSeq[bi] IN IsCanon(SemAt[bi].signed, b.S, b.C, RangeOf(CanonAt[bi].outs))
 \* consistency of the code-shaped model with the reference: a canonical transaction is never
 \* refused as "recomposed tx mismatch"
 RefConsistent == (last.kind = "raw" /\ last.tag = "mismatch") => last.refuse # {}
 TypeOK == /\ bi \in 1..NB /\ mi \in 0..Len(BaseSeq[bi].muts)
           /\ last.tag \in {"ok", "policy", "len", "version", "decode", "mismatch", "top", "panic", "state", "refused"}
 
-\* vacuity guards of the matrix itself
-MatrixStats ==
-  LET R == TLCEval([i \in 1..NB |-> [k \in DOMAIN BaseSeq[i].muts |->
-                      LET c == CaseOf(i, k) IN Rules(c.tx, c.b.S, c.b.C, c.pool)]])
-      sole == UNION {UNION {IF Cardinality(R[i][k]) = 1 THEN R[i][k] ELSE {} : k \in DOMAIN R[i]} : i \in 1..NB} IN
-  <<"CT_MATRIX", NB, NCases, RuleNames \ sole>>
+\* size of the matrix (the vacuity guard - every rule is the SOLE reason of a refusal - is evaluated by
+\* ImplCommitTx on the real refusals, which is the stronger statement)
+MatrixStats == <<"CT_MATRIX", NB, NCases>>
 ASSUME PrintT(MatrixStats)
 =============================================================================
